@@ -16,8 +16,34 @@ def mk_interp(P, alloc='both', extra=None):
     I = Interp(P, summaries=summ)
     d = Deps(I, alloc_fails=alloc); d.install(summ)
     string_summaries(I, summ)
+    # observe the precondition of the field arithmetic at every evaluation: all 16 coefficients are < 2^11
+    for ev in P.fns('gf_poly_eval'):
+        def watch(I_, st, args, inst, ev=ev):
+            p = args[0]
+            hi = []
+            if isinstance(p, Ptr) and p.obj in st.mem.objs and p.coff() is not None:
+                for k in range(16):
+                    c = get(st, p.obj, p.coff() + 8 * k, 8)
+                    hi += [st.cons.reduce(b) for b in c.bits[GF_BITS:]]
+            st.trace.append(('gf_poly_eval-call', all(b == 0 for b in hi) and bool(hi), inst.loc))
+            outs = I_.run_function(ev, args, st, 2)
+            return outs if len(outs) != 1 else _adopt(st, outs[0])
+        summ[ev.name] = watch
     if extra: summ.update(extra)
     return I
+
+
+def _adopt(st, o):
+    if o.state is not st:
+        st.mem = o.state.mem; st.cons = o.state.cons; st.trace = o.state.trace; st.events = o.state.events; st.nalloca = o.state.nalloca
+    return o.ret
+
+
+def p11(rep, o, where, cons, key):
+    ev = [t for t in o.state.trace if t[0] == 'gf_poly_eval-call']
+    bad = [t for t in ev if not t[1]]
+    rep.check(not bad, '%s: every polynomial evaluation receives coefficients < 2^11 (precondition of the GF(2048) arithmetic), %d evaluation(s)' % (cons, len(ev)),
+              bad[0][2] if bad else where, cons, detail=[t[2] for t in bad], key=key + '|p11')
 
 
 def pb_records(o):
@@ -155,6 +181,7 @@ def _crypt_partition(P, I, rep, f, w, o, fo, seed, before):
         names = sorted(set(t[1].split(':')[2] if t[1].startswith('Ptr(a:') else t[1] for t in wz))
         rep.check(len(wz) >= 3, 'three temporaries wiped through dep:memzero', w, f.name, detail=names, sample=names, key='CRYPT|wipes')
         rep.check(not o.state.events, 'no uninitialised / out-of-bounds access', w, f.name, detail=o.state.events[:3], key='CRYPT|events')
+        p11(rep, o, w, 'polyseed_crypt', 'CRYPT')
         # involution
         I3 = mk_interp(P); I3.V = I.V
         outs3 = I3.run(f, [seed, Ptr('password', 0)], o.state.clone())
@@ -354,6 +381,7 @@ def create(ctx, rep):
             so_ = I.load(o.state, Ptr('seed_out', 0), 8, f.blocks[0][0], as_ptr=True)
             rep.check(so_ == Ptr(H, 0), '*seed_out = the block', w, 'create output', detail=repr(so_), key='CREATE|out')
             rep.check(not any(t[0] == 'free' for t in tr), 'no release on the OK path', w, 'create OK exit')
+            p11(rep, o, w, 'create OK exit', 'CREATE')
 
 
 def inject(ctx, rep):
@@ -538,6 +566,7 @@ def decoders(ctx, rep):
                     okn = len(nk) == 1 and len(sp) == 1 and nk[0] < sp[0] and tr[nk[0]][1] == repr(Ptr('str', 0)) and tr[nk[0]][2] == tr[sp[0]][1]
                     rep.check(okn, '%s: the input is NFKD-normalised (utf8_nfkd_lazy(str, buf)) before str_split(buf, ...) on every path' % cons, w, cons,
                               detail=[str(t)[:100] for t in tr[:3]], key=key + '|nfkd-first')
+                    if nm in ('POLYSEED_OK', 'POLYSEED_ERR_CHECKSUM'): p11(rep, o, w, cons, key)
                     if nm == 'POLYSEED_ERR_NUM_WORDS':
                         rep.check(not pdc and not has_alloc, 'NUM_WORDS is decided before the phrase search and before any allocation', w, cons, detail=kinds, key=key + '|order')
                     elif nm in ('POLYSEED_ERR_LANG', 'POLYSEED_ERR_MULT_LANG'):
@@ -694,6 +723,7 @@ def load_api(ctx, rep):
                         rep.check(not _features_decided(o), 'CHECKSUM is decided before the feature check', w, cons, detail=o.state.cons.opaque[-3:], key=key + '|before-features')
                     else:
                         rep.check(csum is True, '%s only after the checksum over the packed loaded data (coeff[0] = stored check value) vanished' % nm, w, cons, key=key + '|stage-checksum')
+                if nm in ('POLYSEED_OK', 'POLYSEED_ERR_CHECKSUM', 'POLYSEED_ERR_UNSUPPORTED'): p11(rep, o, w, cons, key)
                 if nm == 'POLYSEED_OK':
                     rep.check(len(heap) == 1 and not fr, 'OK: one block, not released', w, cons, detail=kinds, key=key + '|alloc')
                     if len(heap) == 1:
